@@ -358,6 +358,8 @@ type ProgCase struct {
 	Expected []Frame  `json:"expected"`
 	Got      []Frame  `json:"got"`
 	GotSer   []Frame  `json:"got_ser"` // after Write + CompiledProgram
+	GotLater []Frame  `json:"got_later"` // the same EvalError inspected again after later failures on its thread
+	BtLater  bool     `json:"bt_later"`  // its Backtrace() is unchanged as well
 	GotWarm  []Frame  `json:"got_warm"` // on a thread that ran unrelated deep calls before
 	Warm     string   `json:"warm"`     // shape of the warm-up
 	Err      string   `json:"err"`
@@ -408,6 +410,7 @@ type gen struct {
 	w       *W
 	layout  []string
 	ctx     int  // syntactic context of the failing expression
+	noPrefix bool // what follows cannot take an `"..." and ` prefix (a lambda; the first instruction of a function)
 	oneLine bool // the context does not allow the expression to span lines outside brackets
 }
 
@@ -494,6 +497,25 @@ func (g *gen) openParenAndMove() {
 	gap := g.lineGap()
 	w.nl(gap)
 	w.sp(g.colPad())
+	g.nonASCIILeft()
+}
+
+// nonASCIILeft sometimes writes non-ASCII text to the LEFT of what follows, on
+// the same line: `"<multi-byte runes>" and ` evaluates what follows and leaves
+// its position where it is written; columns count runes (W.s does), not bytes.
+func (g *gen) nonASCIILeft() {
+	if g.noPrefix || g.r.Intn(4) != 0 {
+		return
+	}
+	g.layout = append(g.layout, "nonascii-left")
+	runes := []string{"\u00e9", "\u4e16", "\U0001F600", "\u00df\u754c"}
+	n := 1 + g.r.Intn(12)
+	var sb strings.Builder
+	for k := 0; k < n; k++ {
+		sb.WriteString(hx.Pick(g.r, runes))
+	}
+	g.w.s("\"" + sb.String() + "\" and ")
+	g.w.sp(g.r.Intn(4))
 }
 
 
@@ -508,6 +530,9 @@ var ctxNames = [nCtx]string{"return-paren", "assign-paren", "stmt-paren", "if", 
 func (g *gen) move() {
 	g.w.nl(g.lineGap())
 	g.w.sp(g.colPad())
+	if g.ctx != 17 && g.ctx != 9 && g.ctx != 16 { // not after `not`, not before `1 if`
+		g.nonASCIILeft()
+	}
 }
 
 // openCtx writes what precedes the failing expression and returns what follows it.
@@ -647,7 +672,9 @@ func (g *gen) genProgram(depth int, links []string, failKind string) (src string
 		case "lambda":
 			// fN = (   lambda x: (  fM  (x)))
 			w.s(name + " = ")
+			g.noPrefix = true
 			g.openParenAndMove()
+			g.noPrefix = false
 			w.s("lambda x: ")
 			g.openParenAndMove()
 			w.s(next)
@@ -749,7 +776,9 @@ func (g *gen) genFailing(name, kind string) []Frame {
 	var firstL, firstC int32
 	if kind == "recursive" {
 		w.s("    q0 = ")
+		g.noPrefix = true
 		g.openParenAndMove()
+		g.noPrefix = false
 		firstL, firstC = w.mark()
 		w.s("x + 0)\n")
 	}
@@ -864,7 +893,9 @@ func (g *gen) genFailing(name, kind string) []Frame {
 		if r.Intn(3) == 0 {
 			iname = "lambda"
 			w.s(ind + "inner_f = ")
+			g.noPrefix = true
 			g.openParenAndMove()
+			g.noPrefix = false
 			w.s("lambda a: ")
 			if r.Bool() {
 				w.s("(a +")
@@ -969,12 +1000,68 @@ func (g *gen) genFailing(name, kind string) []Frame {
 		l, c := w.mark()
 		w.s("(a = 1, *[2])" + closer)
 		out = fr(l, c)
-	case "dictkey": // unhashable key in a dict literal: reported at the ':' of that entry
+	case "dictkey":
+		// The INSERTION of an entry fails (unhashable or duplicate key), in a dict
+		// display or a dict comprehension; reported at the ':' of that entry whatever
+		// the value expression is (literal, call, method call, operator, multi-line).
 		closer := g.openCtx(ind, tail)
-		w.s("{x: 1, [x]")
-		w.sp(r.Intn(3))
-		l, c := w.mark()
-		w.s(": 2}" + closer)
+		val := func() {
+			switch r.Intn(6) {
+			case 0:
+				w.s("2")
+			case 1:
+				w.s("y.strip()")
+			case 2:
+				w.s("len(y)")
+			case 3:
+				w.s("x + 1")
+			case 4:
+				w.s("(x +")
+				w.nl(1 + r.Intn(3))
+				w.sp(r.Intn(40))
+				w.s("len(y))")
+			default:
+				w.s("[q * 2 for q in t]")
+			}
+		}
+		var l, c int32
+		switch r.Intn(3) {
+		case 0: // unhashable key in a display
+			w.s("{x: ")
+			val()
+			w.s(", [x]")
+			w.sp(r.Intn(3))
+			l, c = w.mark()
+			w.s(": ")
+			val()
+			w.s("}")
+		case 1: // duplicate key in a display
+			w.s("{\"k\": ")
+			val()
+			w.s(", \"k\"")
+			w.sp(r.Intn(3))
+			l, c = w.mark()
+			w.s(": ")
+			val()
+			w.s(", \"z\": 0}")
+		default: // unhashable key in a dict comprehension
+			w.s("{k")
+			w.sp(r.Intn(3))
+			l, c = w.mark()
+			w.s(": ")
+			switch r.Intn(3) {
+			case 0:
+				w.s("v")
+			case 1:
+				w.s("v.strip()")
+			default:
+				w.s("(v +")
+				w.nl(1 + r.Intn(2))
+				w.s(" y)")
+			}
+			w.s(" for k, v in [(x, y), ([x], y)]}")
+		}
+		w.s(closer)
 		out = fr(l, c)
 	case "compiterate": // iterating a non-iterable in a comprehension: reported at its 'for'
 		closer := g.openCtx(ind, tail)
@@ -1105,7 +1192,9 @@ func (g *gen) genFailing(name, kind string) []Frame {
 		w.s(hx.Pick(r, []string{"(x)", "(x, x, x)", "(x, zz = 1)", "(x, x, a = 2)", "()"}) + closer)
 		w.s("def g_two(a, b):\n")
 		w.s("    q = ")
+		g.noPrefix = true
 		g.openParenAndMove()
+		g.noPrefix = false
 		l0, c0 := w.mark()
 		w.s("a + 1)\n")
 		w.nl(r.Intn(30))
@@ -1332,6 +1421,29 @@ func warmThread(depth, work int, viaBuiltin bool) (*starlark.Thread, string) {
 	return thread, key
 }
 
+// laterFailure makes another, unrelated evaluation fail on the thread (shallow
+// stacks of several shapes).
+var laterProgs = map[int]*starlark.Program{}
+
+func laterFailure(th *starlark.Thread, shape int) {
+	p := laterProgs[shape]
+	if p == nil {
+		src := []string{
+			"ZZ = 1 // 0\n",
+			"def la(x):\n    return x.nosuch\nla(1)\n",
+			"def lb(x):\n    return [1][x]\ndef la(x):\n    return lb(x + 5)\n_ = la(1)\n",
+			"_ = sorted([1, 2], key = lambda v: v + \"s\")\n",
+		}[shape]
+		var err error
+		_, p, err = starlark.SourceProgramOptions(progOpts, "later.star", src, predeclared().Has)
+		if err != nil {
+			panic(err)
+		}
+		laterProgs[shape] = p
+	}
+	p.Init(th, predeclared())
+}
+
 func execProg(prog *starlark.Program) (frames []Frame, errs string, bt string, problem string) {
 	return execProgOn(&starlark.Thread{Name: "c16"}, prog)
 }
@@ -1402,6 +1514,23 @@ func runProg(seed uint64, i int, withLNT bool) ProgCase {
 	pc.BtOK = btMatches(pc.Bt, pc.Expected)
 	if len(pc.Bt) > 1500 {
 		pc.Bt = pc.Bt[:1500]
+	}
+	// an error is a value: inspect it again after later failures on the same thread
+	// (a runner that collects errors and reports them at the end)
+	{
+		th := &starlark.Thread{Name: "c16"}
+		_, err1 := prog.Init(th, predeclared())
+		if ee, ok := err1.(*starlark.EvalError); ok {
+			bt1 := ee.Backtrace()
+			lr := hx.NewRand(seed*131 + uint64(i))
+			for k, nk := 0, 1+lr.Intn(3); k < nk; k++ {
+				laterFailure(th, lr.Intn(4))
+			}
+			for _, cf := range ee.CallStack {
+				pc.GotLater = append(pc.GotLater, frameOf(cf))
+			}
+			pc.BtLater = ee.Backtrace() == bt1
+		}
 	}
 	// the same on a thread with a history: the report must not depend on what ran before
 	{
